@@ -38,7 +38,10 @@ import (
 )
 
 const (
-	MaxPacketLen     = 1024
+	// MaxPacketLen must hold a request or response with eight cookie or cookie
+	// placeholder fields for the 124-byte cookies issued by this implementation's
+	// servers (48 + 36 + 8*128 + 40 = 1148 bytes).
+	MaxPacketLen     = 1280
 	numStoredCookies = 8
 	ntpPacketLen     = 48
 )
